@@ -226,3 +226,31 @@ Fixpoint all2g {A B : Type} (f : A -> B -> bool) (a : list A) (b : list B) : boo
   end.
 Definition holds_multi (c : mucase) : bool :=
   all2g (fun p o => multi_holds1 (mu_tool c) (fst p) (snd p) o) (mu_ins c) (mu_obs c).
+
+(* ---------------------------------------------------------------- live sources, incremental consumption
+   The tool reads a source whose n-th item is only fixed when it is read (a cell /
+   ControlStream assigned before every pull); outputs are pulled one by one.
+   lv_xs: the values assigned before pull 0, 1, ...; lv_obs: for every pull the
+   number of items the tool had read from the source when the output was delivered,
+   and the output; lv_final: reads after one more pull hit the end (finite source).
+   Per-call model with read positions: read one item, emit one output. *)
+Record lvcase := LV { lv_tool : mtool; lv_zero : Qc; lv_xs : list Qc;
+                      lv_obs : res (list (nat * Qc)); lv_final : option nat }.
+Definition live_model (t : mtool) (zero : Qc) (xs : list Qc) : res (list (nat * Qc)) :=
+  match multi_model t zero xs with
+  | Ok ys => Ok (combine (seq 1 (length ys)) ys)
+  | Err e => Err e
+  end.
+Definition nq_eqb (a b : nat * Qc) : bool := (fst a =? fst b)%nat && Qc_eqb (snd a) (snd b).
+Definition corr_live (c : lvcase) : bool :=
+  res_eqb (list_eqb nq_eqb) (lv_obs c) (live_model (lv_tool c) (lv_zero c) (lv_xs c))
+  && match lv_final c with None => true | Some n => (n =? length (lv_xs c))%nat end.
+(* every output is the formula on the items as read so far (the assigned values), and
+   output k is delivered after at most k+1 reads: nothing is read ahead of the demand *)
+Definition holds_live (c : lvcase) : bool :=
+  match lv_obs c with
+  | Ok l => multi_holds1 (lv_tool c) (lv_zero c) (lv_xs c) (Ok (map snd l))
+            && all2g (fun k p => (fst p <=? k + 1)%nat) (seq 0 (length l)) l
+            && match lv_final c with None => true | Some n => (n <=? length (lv_xs c))%nat end
+  | Err e => multi_holds1 (lv_tool c) (lv_zero c) (lv_xs c) (Err e)
+  end.
